@@ -316,14 +316,33 @@ def may_be_none(repo, cg, seen, roots):
             pos, kwo = _param_names(tfn)
             is_method = pos[:1] in (["self"], ["cls"]) and not (isinstance(s.node.func, ast.Name))
             call = s.node
-            if any(isinstance(a, ast.Starred) for a in call.args) or any(k.arg is None for k in call.keywords):
+            if any(isinstance(a, ast.Starred) for a in call.args):
                 continue
             bound = {}
             plist = pos[1:] if is_method else pos
             for a, p in zip(call.args, plist):
                 bound[p] = a
+            opaque_kwargs = False
             for k in call.keywords:
-                bound[k.arg] = k.value
+                if k.arg is not None:
+                    bound[k.arg] = k.value
+                    continue
+                # f(**ctx) where ctx = dict(a=x, b=y) / {"a": x, "b": y} earlier in the caller: the entries are the keyword arguments
+                src = None
+                if isinstance(k.value, ast.Name):
+                    for a_ in ast.walk(repo.functions[caller][1]):
+                        if isinstance(a_, ast.Assign) and len(a_.targets) == 1 and isinstance(a_.targets[0], ast.Name) and a_.targets[0].id == k.value.id:
+                            src = a_.value
+                if isinstance(src, ast.Call) and isinstance(src.func, ast.Name) and src.func.id == "dict" and not src.args and all(kk.arg for kk in src.keywords):
+                    for kk in src.keywords:
+                        bound[kk.arg] = kk.value
+                elif isinstance(src, ast.Dict) and all(isinstance(kk, ast.Constant) and isinstance(kk.value, str) for kk in src.keys):
+                    for kk, vv in zip(src.keys, src.values):
+                        bound[kk.value] = vv
+                else:
+                    opaque_kwargs = True
+            if opaque_kwargs:
+                continue
             for p in opt[t]:
                 if (t, p) in maybe:
                     continue
